@@ -137,6 +137,11 @@ func envOr(k, d string) string {
 // patternsFor: packages with contract files (+ protobuf packages for getter bodies).
 func patternsFor(repo, verif string) []string {
 	set := map[string]bool{"./protobuf/...": true, "./common": true}
+	if extraPatterns != nil {
+		for _, p := range extraPatterns {
+			set[p] = true
+		}
+	}
 	add := func(root string, rel func(string) string) {
 		filepath.Walk(root, func(p string, info os.FileInfo, err error) error {
 			if err != nil {
@@ -171,8 +176,14 @@ func patternsFor(repo, verif string) []string {
 	return out
 }
 
+// extraPatterns: packages loaded in addition to those with contract files (the C15 secret-flow sweep covers them)
+var extraPatterns []string
+
 func runCheck(repo, verif, prop, tier, only string, verbose, writeEvidence bool) int {
 	t0 := time.Now()
+	if prop == "C15" {
+		extraPatterns = []string{"./internal/drand-cli", "./internal/net", "./common/log", "./internal/metrics", "./cmd/drand", "./internal/chain/postgresdb/...", "./internal/entropy", "./common/client", "./common/tracer"}
+	}
 	seed, _ := strconv.Atoi(os.Getenv("VERIF_SEED"))
 	eng, err := loadEngine(repo, verif, patternsFor(repo, verif))
 	if err != nil {
@@ -229,6 +240,9 @@ func runCheck(repo, verif, prop, tier, only string, verbose, writeEvidence bool)
 	}
 	if only == "" {
 		all = append(all, eng.lemmaObligs(prop)...)
+	}
+	if prop == "C15" && (only == "" || only == "secretfmt") {
+		all = append(all, eng.secretFmtObligs()...)
 	}
 	genS := time.Since(t0).Seconds() - loadS
 	eng.dischargeAll(all)
